@@ -342,7 +342,7 @@ def run(ctx, prop):
             ctx.log('PendingStart.tla: %s violated in the MODEL' % pres['violated'])
     if prop in ('C10', 'C09'):
         # watch latency (MasterLag.tla): cycles on a view that lags the store
-        lme, lmc = (5, 4) if ctx.quick else (8, 7)
+        lme, lmc = (5, 4) if ctx.quick else (7, 6)
         lmod, lcfg, lfiles = lag_cfg(max_events=lme, max_cycles=lmc)
         lres = tlc.mc(mc.SPEC_DIR, lmod, lcfg, extra_files=lfiles, coverage=True,
                       timeout=300 if ctx.quick else 2400)
